@@ -4,7 +4,7 @@ func init() {
 	register(&Check{
 		ID:    "C02",
 		Level: "exploration",
-		Rule: "every program with at least one `= name` capture of <= n nodes over {'a','b'}, maybe/at least 0/at most 2 (greedy and fewest), at least 1, `or`, groups, back-references to the 1st/2nd capture (driver D4), plus captures inside inline subroutines and calls (D4s), plus every way of naming one or two loops of every capture program of <= 5 nodes (D4n: bindings are then reported per iteration as lp/i/name and must equally be those of the successful path, in the innermost named loop), x every text over {a,b} up to length 5; " +
+		Rule: "every program with at least one `= name` capture of <= n nodes over {'a','b'}, maybe/at least 0/at most 2 (greedy and fewest), at least 1, `or`, groups, back-references to the 1st/2nd capture (driver D4), plus captures inside inline subroutines and calls (D4s), plus every way of naming one or two loops of every capture program of <= 5 nodes (D4n: bindings are then reported per iteration as lp/i/name and must equally be those of the successful path, in the innermost named loop; D4n2: 384 nested-named-loop programs with a choice point inside the open inner loop and bindings in the outer iteration, texts over {a,b,c}), x every text over {a,b} up to length 5; " +
 			"spans AND the string variables of every match must equal the reference matcher's final environment; non-trivial = distinct (program,text) pairs where R reports a match that binds at least one variable",
 		Assume: []string{"reference matcher R (vmc/ref.go): bindings live in a persistent list, so an abandoned path cannot leak", "named loops: only string leaves of the per-iteration maps are compared (empty per-iteration maps are an undocumented detail); back-references to names bound inside a named loop are not generated (undocumented, the engine resolves back-references in the outermost scope only)"},
 		Budget: map[string]int{"quick": 120, "thorough": 1500},
@@ -103,6 +103,39 @@ func runC02(c *Ctx) {
 					c.Count("programs", 1)
 					c.Count("named_loop_programs", 1)
 					semUnit(c, "C02", p, txts, true, false)
+				}
+			}
+		}
+	}
+	// D4n2: nested named loops with a choice point taken while the inner one is open and a binding
+	// made in the outer iteration after the inner loop has ended (template family, texts over {a,b,c})
+	if c.Level("D4n2:nested named loops") {
+		nl := func(name string, min, max int, fewest bool, b *T) *T {
+			l := loop(min, max, fewest, b)
+			l.S = name
+			return l
+		}
+		a, b, cc := lit("a"), lit("b"), lit("c")
+		inners := []*T{a, capt(a, "r"), or(a, b), seq(loop(0, 1, false, capt(a, "r")), or(a, b))}
+		choices := [][]*T{{or(capt(a, "q"), capt(b, "p"))}, {loop(0, 1, false, capt(a, "q")), loop(0, 1, false, capt(b, "p"))}, {capt(or(a, b), "q")}, {or(seq(capt(a, "q"), b), seq(a, capt(or(b, cc), "p")))}}
+		tails := [][]*T{{cc}, {b}, {}}
+		tabc := texts("abc", 5)
+		for _, in := range inners {
+			for _, imin := range []int{0, 1} {
+				for _, ifew := range []bool{false, true} {
+					for _, ch := range choices {
+						for _, tl := range tails {
+							for _, omin := range []int{0, 1} {
+								body := append(append([]*T{nl("li", imin, -1, ifew, in)}, ch...), tl...)
+								p := &Prog{Body: []*T{nl("lo", omin, -1, false, seq(body...))}}
+								if c.Unit(func() string { return progDesc(p) }) {
+									c.Count("programs", 1)
+									c.Count("named_loop_programs", 1)
+									semUnit(c, "C02", p, tabc, true, false)
+								}
+							}
+						}
+					}
 				}
 			}
 		}
